@@ -623,8 +623,23 @@ class Interp:
                 return UNIT
             if "str" in op:
                 return Const(op["str"], "&str")
+            if "named" in op:
+                v = self.eval_named_const(frame, op["named"], st)
+                if v is not None:
+                    return v
             return Top("const:%s" % (op.get("named") or op.get("s", "?"))[:60], tys)
         return Top("operand")
+
+    def eval_named_const(self, frame, name, st):
+        """a named workspace constant (`const X: T = ...`) is evaluated from its own MIR body (straight-line,
+        const fn calls kept as symbolic nodes) so that `X` and its inlined initialiser give the same value."""
+        cands = [b for b in self.prog.by_path.get(name, []) if b.kind.startswith(("Const", "AssocConst")) and b.arg_count == 0]
+        if len(cands) != 1:
+            return None
+        v = self._eval_straight(frame, ("c", cands[0].key, 0), cands[0], st)
+        if isinstance(v, Top) and v.label == "promoted":
+            return None
+        return v
 
     def eval_promoted(self, frame, op, st):
         """evaluate a promoted constant body (straight-line) in a scratch frame; returns its _0."""
@@ -637,10 +652,11 @@ class Interp:
             return Top("promoted")
         pb = proms[ix]
         pbody = _PromotedBody(owner, pb)
-        addr_base = "prom:%s:%d" % (owner.key, ix)
-        # evaluate once per state (cells are labelled, so re-evaluation is idempotent)
+        return self._eval_straight(frame, ("p", owner.key, ix), pbody, st)
+
+    def _eval_straight(self, frame, fid, pbody, st):
         self.frame_counter += 1
-        f = Frame(("p", owner.key, ix), pbody, frame.depth + 1)
+        f = Frame(fid, pbody, frame.depth + 1)
         bi = 0
         guard = 0
         while guard < 50:
@@ -660,11 +676,14 @@ class Interp:
             if t["k"] == "call" and t.get("target") is not None:
                 # const fn call inside a promoted constant: keep it as a symbolic node fn(args)
                 fo = t["func"]
-                name = last_segment(fo["fn"].get("rpath") or fo["fn"]["path"]) if fo.get("k") == "const" and "fn" in fo else "?"
-                owner_name = (fo["fn"].get("rpath") or fo["fn"]["path"]).split("::")[-2] if fo.get("k") == "const" and "fn" in fo else ""
-                owner_name = strip_generics(owner_name)
+                # named like a logged runtime call (client.short) so that both forms compare equal
+                if fo.get("k") == "const" and "fn" in fo:
+                    segs = [x for x in strip_generics(fo["fn"].get("rpath") or fo["fn"]["path"]).split("::") if x]
+                    name = "::".join(segs[-2:])
+                else:
+                    name = "?"
                 argv = [self.operand(f, a, st) for a in t["args"]]
-                self.write_place(f, t["dest"], Adt("%s::%s" % (owner_name, name), 0, argv), st)
+                self.write_place(f, t["dest"], Adt("fn:" + name, 0, argv), st)
                 bi = t["target"]
                 continue
             break
